@@ -140,13 +140,21 @@ def _chunks(n, size):
     return [list(range(a, min(n, a + size))) for a in range(0, n, size)]
 
 
-def sweep(prop, tier, base, n_cases, wall_cap, workers):
+def sweep(prop, tier, base, n_cases, wall_cap, workers, soft_cap=None):
+    """Runs the cases; returns (results, timed_out, dead, truncated).
+
+    soft_cap (seconds): once it has elapsed no further chunk of cases is started; the running ones finish and
+    the run is judged on what was explored (exit status unaffected, the evidence says how many cases ran). This
+    keeps a check inside its time box on a loaded machine. wall_cap stays the hard limit: chunks still running
+    then are killed and the run is a harness error (a hang is never a pass)."""
     modname = prop.__name__
-    chunk = max(1, min(64, n_cases // (workers * 4) or 1))
+    chunk = max(1, min(64, n_cases // (workers * 16) or 1))
     jobs = [(modname, base, tier, c) for c in _chunks(n_cases, chunk)]
     results = []
     t0 = time.time()
     timed_out = False
+    truncated = False
+    soft_cap = soft_cap if soft_cap is not None else 0.7 * wall_cap
     if workers <= 1:
         _init_worker(modname)
         for j in jobs:
@@ -154,28 +162,43 @@ def sweep(prop, tier, base, n_cases, wall_cap, workers):
             if time.time() - t0 > wall_cap:
                 timed_out = True
                 break
-        return results, timed_out, None
+            if time.time() - t0 > soft_cap:
+                truncated = len(results) < n_cases
+                break
+        return results, timed_out, None, truncated
     ctx = mp.get_context("fork")
     dead = None
     with cf.ProcessPoolExecutor(max_workers=workers, mp_context=ctx,
                                 initializer=_init_worker, initargs=(modname,)) as ex:
         futs = [ex.submit(_work, j) for j in jobs]
+        pending = set(futs)
         try:
-            for f in cf.as_completed(futs, timeout=wall_cap):
-                results.extend(f.result())
-        except cf.TimeoutError:
-            timed_out = True
-            for f in futs:
-                f.cancel()
-            for p in list(getattr(ex, "_processes", {}).values()):
-                try:
-                    p.terminate()
-                except Exception:
-                    pass
+            while pending:
+                done, pending = cf.wait(pending, timeout=2.0, return_when=cf.FIRST_COMPLETED)
+                for f in done:
+                    if not f.cancelled():
+                        results.extend(f.result())
+                el = time.time() - t0
+                if not truncated and pending and el > soft_cap:
+                    for f in list(pending):
+                        f.cancel()
+                    n_before = len(pending)
+                    pending = {f for f in pending if not f.cancelled()}
+                    truncated = n_before > len(pending)
+                if pending and el > wall_cap:
+                    timed_out = True
+                    for f in pending:
+                        f.cancel()
+                    for p in list(getattr(ex, "_processes", {}).values()):
+                        try:
+                            p.terminate()
+                        except Exception:
+                            pass
+                    break
         except cf.process.BrokenProcessPool as e:
             dead = repr(e)
     results.sort(key=lambda r: r["i"])
-    return results, timed_out, dead
+    return results, timed_out, dead, truncated
 
 
 # ------------------------------------------------------------- minimisation
@@ -292,6 +315,8 @@ def run_property(prop, tier, base, workers=None):
     bud = prop.budget(tier)
     if os.environ.get("VERIF_CASES"):
         bud["cases"] = min(bud["cases"], int(os.environ["VERIF_CASES"]))
+    if os.environ.get("VERIF_SOFT_WALL"):       # tools / tests only
+        bud["soft_wall"] = float(os.environ["VERIF_SOFT_WALL"])
     findings = load_findings(prop.ID)
     status = 0
     print("check %s tier=%s VERIF_SEED=%d cases=%d workers=%d" % (prop.ID, tier, base, bud["cases"], workers))
@@ -331,7 +356,9 @@ def run_property(prop, tier, base, workers=None):
                     status = 2
 
     # 3. seeded sweep
-    results, timed_out, dead = sweep(prop, tier, base, bud["cases"], bud["wall"], workers)
+    results, timed_out, dead, truncated = sweep(prop, tier, base, bud["cases"], bud["wall"], workers, bud.get("soft_wall"))
+    if truncated:
+        print("NOTE: time box reached, %d of %d planned cases explored (the verdict covers those)" % (len(results), bud["cases"]))
     if dead:
         print("HARNESS-ERROR: worker died: %s" % dead)
         status = 2
@@ -454,6 +481,8 @@ def run_property(prop, tier, base, workers=None):
         "runs_per_hour": round(n_run / max(wall, 1e-9) * 3600),
         "seeds": {"base": base, "first_index": 0, "last_index": bud["cases"] - 1,
                   "derivation": "sha256(base, property, index)"},
+        "planned_cases": bud["cases"],
+        "stopped_by_time_box": bool(truncated),
         "sim_steps": steps,
         "sim_time_note": "no clock in this system: logical steps (draw calls / operations / training steps) are the simulated time",
         "operations": ops,
